@@ -139,9 +139,17 @@ int main(int argc, char **argv)
     int mgrp[2] = {0, 0};
 
     for (i = 0; i < (int) sizeof(payload); i++) payload[i] = (unsigned char) (i * 31 + 7);
+    if (!strcmp(key, "ed"))
+    {
+        /* Ed25519 identity and issuer, generated by the check with harness/certgen into certdir= (the repository's test keys have none) */
+        const char *cd = arg(argc, argv, "certdir", ".");
+        snprintf(cert, sizeof(cert), "%s/edleaf.pem", cd); snprintf(pkey, sizeof(pkey), "%s/kEL.key.pem", cd); snprintf(ca, sizeof(ca), "%s/edroot.pem", cd);
+    }
+    else {
     snprintf(cert, sizeof(cert), "%s/%s", TK, !strcmp(key, "ec") ? "EC/256_EC.pem" : "RSA/2048_RSA.pem");
     snprintf(pkey, sizeof(pkey), "%s/%s", TK, !strcmp(key, "ec") ? "EC/256_EC_KEY.pem" : "RSA/2048_RSA_KEY.pem");
     snprintf(ca, sizeof(ca), "%s/%s", TK, !strcmp(key, "ec") ? "EC/256_EC_CA.pem" : "RSA/2048_RSA_CA.pem");
+    }
 
     if (matrixSslOpen() < 0) return 2;
     if (matrixSslNewKeys(&keys, NULL) < 0) return 2;
